@@ -100,3 +100,89 @@ def run_cli(script, args, stdin_mode='open', data=b'', timeout=180, env=None, ha
         except Exception:
             pass
     return (out[0] if out else b''), (err[0] if err else b''), p.returncode, timed_out
+
+def run_cli_blocked(script, args, chunks, settle=1.0, timeout=180, hashseed='0', max_out=64 << 20):
+    """Back-pressure monitor: start the CLI with stdout on a pipe nobody reads, wait until the pipe is full and its fill level has stopped moving (the
+    generator is then blocked inside a write, at a well-defined point of its stream), write `chunks` (each one write()) to the stdin pipe, wait until the
+    child has consumed them and its stderr has been quiet for `settle` seconds, then drain stdout until the process ends.
+    Returns (stdout, stderr, returncode, timed_out, info); info['blocked'] is False when the process finished before it could be blocked."""
+    import time, fcntl, termios, struct
+    s = repo.scratch()
+    cmd = [sys.executable, '-B', '-W', 'ignore', os.path.join(s, script)] + list(args)
+    e = dict(os.environ, PYTHONHASHSEED=str(hashseed), PYTHONIOENCODING='utf-8')
+    e.pop('VERIF_SCRATCH', None)
+    p = subprocess.Popen(cmd, stdin=subprocess.PIPE, stdout=subprocess.PIPE, stderr=subprocess.PIPE, cwd=s, env=e)
+    def pending(fd):
+        try:
+            return struct.unpack('i', fcntl.ioctl(fd, termios.FIONREAD, b'\0\0\0\0'))[0]
+        except OSError:
+            return -1
+    err, last_err = [], [time.time()]
+    def err_reader():
+        while True:
+            chunk = p.stderr.read1(1 << 16) if hasattr(p.stderr, 'read1') else p.stderr.read(1 << 16)
+            if not chunk:
+                break
+            err.append(chunk); last_err[0] = time.time()
+    te = threading.Thread(target=err_reader, daemon=True); te.start()
+    info = {'blocked': False, 'fill': 0, 'stdin_consumed': False, 'settle': settle}
+    t0 = time.time()
+    try:
+        # 1. wait for the block: fill level > 0, unchanged for 0.4 s, process alive
+        prev, since = -1, time.time()
+        while time.time() - t0 < 60 and p.poll() is None:
+            n = pending(p.stdout.fileno())
+            if n != prev:
+                prev, since = n, time.time()
+            elif n >= 4096 and time.time() - since > 0.4:
+                info['blocked'] = True; info['fill'] = n
+                break
+            time.sleep(0.02)
+        if info['blocked']:
+            # 2. the requests, each chunk in one write
+            for c in chunks:
+                try:
+                    os.write(p.stdin.fileno(), c)
+                except (BrokenPipeError, OSError):
+                    break
+            # 3. consumed + quiet
+            t1 = time.time()
+            while time.time() - t1 < 20:
+                if pending(p.stdin.fileno()) == 0:
+                    info['stdin_consumed'] = True
+                    if time.time() - max(last_err[0], t1) > settle:
+                        break
+                time.sleep(0.02)
+            info['fill_after_requests'] = pending(p.stdout.fileno())
+        # 4. drain
+        out, n = [], 0
+        timed_out = False
+        deadline = time.time() + timeout
+        fd = p.stdout.fileno()
+        while True:
+            if time.time() > deadline:
+                timed_out = True; p.kill(); break
+            import select
+            if not select.select([fd], [], [], 1.0)[0]:
+                continue
+            chunk = os.read(fd, 1 << 16)
+            if not chunk:
+                break
+            n += len(chunk)
+            if n <= max_out:
+                out.append(chunk)
+            else:
+                p.kill()
+        try:
+            p.wait(timeout=30)
+        except subprocess.TimeoutExpired:
+            timed_out = True; p.kill(); p.wait()
+        te.join(10)
+    finally:
+        try:
+            p.stdin.close()
+        except Exception:
+            pass
+        if p.poll() is None:
+            p.kill(); p.wait()
+    return b''.join(out), b''.join(err), p.returncode, timed_out, info
